@@ -4,6 +4,7 @@ package ledger
 
 import (
 	"fmt"
+	"math/big"
 
 	"github.com/meshplus/bitxhub-kit/types"
 	"github.com/meshplus/bitxhub-model/pb"
@@ -12,7 +13,22 @@ import (
 
 // zzExecBlock executes a block with one symbolic write on ledger lg and returns its block data.
 func zzExecBlock(lg *Ledger, h uint64, parent *types.Hash) *BlockData {
-	lg.SetState(zzAddrs[0], []byte("a"), []byte{zz.U8("v")}, nil)
+	return zzExecBlockWith(lg, h, parent, 0, zz.U8("v"))
+}
+
+// zzExecBlockWith: kind 0 writes storage of account 0; kind 1 gives account 1 a balance (creating
+// it if this is its first block) and writes its storage; kind 2 additionally sets its code.
+func zzExecBlockWith(lg *Ledger, h uint64, parent *types.Hash, kind int, v uint8) *BlockData {
+	switch kind {
+	case 0:
+		lg.SetState(zzAddrs[0], []byte("a"), []byte{v}, nil)
+	default:
+		lg.SetBalance(zzAddrs[1], big.NewInt(int64(100+h)))
+		lg.SetState(zzAddrs[1], []byte("b"), []byte{v}, nil)
+		if kind == 2 {
+			lg.SetCode(zzAddrs[1], []byte{v, 1})
+		}
+	}
 	accounts, root := lg.FlushDirtyData()
 	block := &pb.Block{
 		BlockHeader:  &pb.BlockHeader{Number: h, ParentHash: parent, StateRoot: root, TxRoot: &types.Hash{}, ReceiptRoot: &types.Hash{}, Timestamp: int64(h)},
@@ -45,7 +61,9 @@ func ZZH_C11_crash() {
 		lg.PersistBlockData(bd)
 		parent = bd.Block.BlockHash
 	}
-	bd := zzExecBlock(lg, h, parent)
+	kind := zz.Choice("lastBlockKind", 3)
+	v := zz.U8("vLast")
+	bd := zzExecBlockWith(lg, h, parent, kind, v)
 	// per store, the durable write events (batch commits, direct puts) form a prefix:
 	// the state store performs 1 event (2 when old journals are pruned), the index store 1
 	ns := zz.Choice("stateStoreEvents", 4) // 0..3 events of the state store survive
@@ -89,6 +107,22 @@ func ZZH_C11_crash() {
 			_, e := lg2.GetBlock(i, true)
 			zz.Assert("C11.no-block-lost", e == nil)
 		}
+	}
+	if head == h-1 {
+		// nothing of the lost block is left in the state: its storage / code / balance are gone
+		// and executing it again gives the state root the uncrashed execution computed
+		if kind != 0 {
+			okb, _ := lg2.GetState(zzAddrs[1], []byte("b"))
+			zz.Assert("C11.old.no-leftover-storage", !okb)
+			zz.Assert("C11.old.no-leftover-code", lg2.GetCode(zzAddrs[1]) == nil)
+			zz.Assert("C11.old.no-leftover-balance", lg2.GetBalance(zzAddrs[1]).Sign() == 0)
+		}
+		again := zzExecBlockWith(lg2, h, lg2.GetChainMeta().BlockHash, kind, v)
+		zz.Assert("C11.old.reexecution-same-root", again.Block.BlockHeader.StateRoot.String() == bd.Block.BlockHeader.StateRoot.String())
+		crashed, _ := zz.Crashed(func() { lg2.PersistBlockData(again) })
+		zz.Assert("C11.crash-continue", !crashed)
+		zz.Assert("C11.continue-height", lg2.GetChainMeta().Height == h)
+		return
 	}
 	// the node can execute and persist the next block
 	next := zzExecBlock(lg2, head+1, lg2.GetChainMeta().BlockHash)
